@@ -15,11 +15,11 @@ TRUSTED = ["Coq 8.16.1 kernel + vm_compute + primitive floats",
            "harness/c02.py, harness/detectors.py"]
 RULE = ("random multi-drift histories for DDM, EDDM, STEPD, PageHinkley, CUSUM, KdqTreeStreaming, KdqTreeBatch, HDDDM, CDBD, NNDVI; after every reported "
         "drift a newly constructed detector (plus documented carry-over) is fed the remaining data under the same seed schedule and every observable is "
-        "compared epoch by epoch; explicit set_reference at a random position of batch histories. Non-trivial: >= 1 drift followed by >= 1 update.")
+        "compared epoch by epoch; explicit set_reference at a random position of batch histories and in the call that directly follows a reported drift. Non-trivial: >= 1 drift followed by >= 1 update.")
 SHARD = 40
 DETS = [n for n, s in SPECS.items() if s.in_c02]
 SLOW = {"KdqTreeStreaming", "KdqTreeBatch", "HDDDM", "CDBD", "NNDVI"}
-SKIP_KEYS = {"lam", "step"}
+SKIP_KEYS = {"lam", "step", "setref"}
 
 
 def gen_cases(ctx):
@@ -34,6 +34,13 @@ def gen_cases(ctx):
             k += 1
             c = gen_case(ctx, name, k)
             c["_set_reference_at"] = ctx.rng.randint(1, max(1, len(c["data"]) - 3))
+            cases.append(c)
+    # explicit set_reference in the call that directly follows a reported drift
+    for name in ("KdqTreeBatch", "HDDDM", "CDBD", "NNDVI"):
+        for _ in range(ctx.scale(5, 40)):
+            k += 1
+            c = gen_case(ctx, name, k)
+            c["_set_reference_at"] = "after_drift"
             cases.append(c)
     return cases
 
@@ -78,6 +85,9 @@ def direct_check(case, obs):
     spec, rows = SPECS[name], obs["rows"]
     upd = rows[1:] if spec.kind == "batch" else rows
     sr = case.get("_set_reference_at")
+    if sr == "after_drift":
+        at = [j for j, r in enumerate(upd) if r.get("setref")]
+        sr = at[0] if at else None       # no drift (or only at the last batch): an ordinary history
     if sr is not None:
         # equivalent to starting a new detector on that reference
         data = case["data"][1:]
